@@ -1024,6 +1024,119 @@ end
 def programOk (p : Program Name) : Bool :=
   decide (p.version.1 < 2 ^ 64) && decide (p.version.2.1 < 2 ^ 64) && decide (p.version.2.2 < 2 ^ 64) && termOk p.term
 
+-- ------------------------------------------------------------------ names: re-interning and binder resolution
+/-- text of a name as the parser sees it -/
+def nameChars (n : Name) : List Char := n.text.toList
+
+mutual
+  /-- `Interner::term` (parser/interner.rs): every name gets the unique its text is interned to,
+  left to right.  This is also what parsing the printed term does to the names. -/
+  def relabel : Interner → Term Name → Term Name × Interner
+    | st, .var n => (.var (mkName (nameChars n) (intern (nameChars n) st).1), (intern (nameChars n) st).2)
+    | st, .lam n b =>
+      let r := relabel (intern (nameChars n) st).2 b
+      (.lam (mkName (nameChars n) (intern (nameChars n) st).1) r.1, r.2)
+    | st, .app f a =>
+      let r1 := relabel st f
+      let r2 := relabel r1.2 a
+      (.app r1.1 r2.1, r2.2)
+    | st, .delay t => let r := relabel st t; (.delay r.1, r.2)
+    | st, .force t => let r := relabel st t; (.force r.1, r.2)
+    | st, .error => (.error, st)
+    | st, .builtin b => (.builtin b, st)
+    | st, .const c => (.const c, st)
+    | st, .constr tag fs => let r := relabelList st fs; (.constr tag r.1, r.2)
+    | st, .case s bs =>
+      let r1 := relabel st s
+      let r2 := relabelList r1.2 bs
+      (.case r1.1 r2.1, r2.2)
+  def relabelList : Interner → List (Term Name) → List (Term Name) × Interner
+    | st, [] => ([], st)
+    | st, t :: ts =>
+      let r1 := relabel st t
+      let r2 := relabelList r1.2 ts
+      (r1.1 :: r2.1, r2.2)
+end
+
+/-- a resolved variable: de Bruijn index of its binder (0 = innermost), or free (identified by text) -/
+inductive Ref where
+  | bound (i : Nat)
+  | free (text : String)
+  deriving DecidableEq, Repr, Inhabited
+
+mutual
+  /-- Binder resolution by environment list (innermost binder first): the nameless view of a term,
+  where a variable is looked up by `key` (the unique for `Program<Name>`, cf. `Converter::get_index`
+  which searches the scopes from the innermost one). -/
+  def resolveBy {κ : Type} [DecidableEq κ] (key : Name → κ) : List κ → Term Name → Term Ref
+    | env, .var n =>
+      match idxOf (key n) env with
+      | some i => .var (.bound i)
+      | none => .var (.free n.text)
+    | env, .lam n b => .lam (.bound 0) (resolveBy key (key n :: env) b)
+    | env, .app f a => .app (resolveBy key env f) (resolveBy key env a)
+    | env, .delay t => .delay (resolveBy key env t)
+    | env, .force t => .force (resolveBy key env t)
+    | _, .error => .error
+    | _, .builtin b => .builtin b
+    | _, .const c => .const c
+    | env, .constr tag fs => .constr tag (resolveListBy key env fs)
+    | env, .case s bs => .case (resolveBy key env s) (resolveListBy key env bs)
+  def resolveListBy {κ : Type} [DecidableEq κ] (key : Name → κ) : List κ → List (Term Name) → List (Term Ref)
+    | _, [] => []
+    | env, t :: ts => resolveBy key env t :: resolveListBy key env ts
+end
+
+/-- the nameless view of a `Term Name`: variables resolved through their `unique` -/
+def nameless (t : Term Name) : Term Ref := resolveBy (·.unique) [] t
+
+/-- α-equivalence of named programs: same version, same nameless view -/
+def AlphaEq (p q : Program Name) : Prop := p.version = q.version ∧ nameless p.term = nameless q.term
+
+mutual
+  /-- `NamesConsistent`: at every variable, looking the binder up by *text* (all the printer emits)
+  finds the same binder as looking it up by *unique* (what the program means). -/
+  def scopeOk : List Name → Term Name → Bool
+    | env, .var n => idxOf n.text (env.map (·.text)) == idxOf n.unique (env.map (·.unique))
+    | env, .lam n b => scopeOk (n :: env) b
+    | env, .app f a => scopeOk env f && scopeOk env a
+    | env, .delay t => scopeOk env t
+    | env, .force t => scopeOk env t
+    | _, .error => true
+    | _, .builtin _ => true
+    | _, .const _ => true
+    | env, .constr _ fs => scopeOkList env fs
+    | env, .case s bs => scopeOk env s && scopeOkList env bs
+  def scopeOkList : List Name → List (Term Name) → Bool
+    | _, [] => true
+    | env, t :: ts => scopeOk env t && scopeOkList env ts
+end
+
+def namesConsistent (p : Program Name) : Bool := scopeOk [] p.term
+
+mutual
+  /-- every name occurrence (binders and variables), left to right -/
+  def names : Term Name → List Name
+    | .var n => [n]
+    | .lam n b => n :: names b
+    | .app f a => names f ++ names a
+    | .delay t => names t
+    | .force t => names t
+    | .error => []
+    | .builtin _ => []
+    | .const _ => []
+    | .constr _ fs => namesList fs
+    | .case s bs => names s ++ namesList bs
+  def namesList : List (Term Name) → List Name
+    | [] => []
+    | t :: ts => names t ++ namesList ts
+end
+
+/-- the stronger, scope-free condition: over the whole program, text and unique determine each other
+(what `debruijn_to_name` produces: text `i_<unique>`) -/
+def namesBijective (p : Program Name) : Bool :=
+  (names p.term).all (fun n => (names p.term).all (fun m => decide (n.text = m.text ↔ n.unique = m.unique)))
+
 -- ------------------------------------------------------------------ lexer
 def isWsChar (c : Char) : Bool := c == ' ' || c == '\n' || c == '\r' || c == '\t'
 def isWordChar (c : Char) : Bool := isIdentChar c || c == '+' || c == '.'
